@@ -106,6 +106,8 @@ func init() {
 		Run: func(rc *rules.RC) {
 			rules.S1(rc)
 			rules.S2(rc)
+			rules.S10(rc)
+			rules.T4(rc)
 			rules.K3(rc, fileFilter("array_getset.go", "getset.go", "array.go", "dense_generated.go"), 8, 130)
 			fams := rules.Families(rc.P)
 			rules.K1(rc, fams, func(f string) bool { return strings.HasPrefix(f, "internal/storage.") }, 50)
@@ -307,6 +309,7 @@ func init() {
 			rules.T4(rc)
 			rules.S13(rc)
 			rules.S11(rc)
+			rules.S10(rc)
 		},
 	})
 	register(&Property{
@@ -368,6 +371,7 @@ func init() {
 			rules.M7(rc, 300)
 			rules.L0(rc, nil)
 			rules.M4(rc, nil, 40)
+			rules.P3map(rc)
 			rules.EC(rc, fileFilterName("defaultengine_prep.go", "defaultengine_arith.go", "defaultengine_cmp.go", "defaultengine_unary.go", "defaultengine_minmax.go", "defaultengine_misc.go", "defaultengine_mapreduce.go", "dense_linalg.go", "utils.go", "flags.go"), 50)
 		},
 	})
@@ -427,6 +431,7 @@ func init() {
 			rules.M2(rc, mGroup("unary"), 15, 178)
 			rules.L0(rc, nil)
 			rules.M4(rc, mGroup("unary"), 15)
+			rules.P3map(rc)
 			rules.K1op(rc, []string{"api_unary.go", "defaultengine_unary.go", "defaultengine_misc.go"}, 10)
 			rules.K5(rc, map[string]bool{"eng_unary.go": true, "eng_map.go": true}, 10)
 			rules.K11(rc)
